@@ -46,30 +46,126 @@ Definition key (e : entry) : phantom * ident := (e_ph e, e_id e).
 Lemma run_snoc ops op : run (ops ++ [op]) = step (run ops) op.
 Proof. unfold run. rewrite fold_left_app. reflexivity. Qed.
 
-(* ------------------------------------------------------------------ validated_live *)
-Lemma vlive_snoc ops ph id op :
-  validated_live ops ph id -> op <> Expire ph id -> validated_live (ops ++ [op]) ph id.
+(* ------------------------------------------------------------------ the stored state of one key *)
+Definition find_key (st : registry) (ph : phantom) (id : ident) : kstate :=
+  match find (key_eqb ph id) st with
+  | Some e => Some (r_name (e_reg e), r_valid (e_reg e))
+  | None => None
+  end.
+
+Lemma key_is_spec ph id ph' id' : key_is ph id ph' id' = true <-> ph' = ph /\ id' = id.
+Proof. unfold key_is. rewrite andb_true_iff, N.eqb_eq, bytes_eqb_eq. tauto. Qed.
+
+Lemma key_eqb_key_is ph id e : key_eqb ph id e = key_is ph id (e_ph e) (e_id e).
+Proof. reflexivity. Qed.
+
+Lemma find_none_tracked st ph id : tracked st ph id = false -> find (key_eqb ph id) st = None.
 Proof.
-  intros (a & r & b & -> & Hb) Hop. exists a, r, (b ++ [op]). split.
-  - rewrite <- app_assoc. reflexivity.
-  - intros o Ho. apply in_app_or in Ho as [Ho|[<-|[]]]; auto.
+  unfold tracked. induction st as [|e st IH]; cbn; auto.
+  destruct (key_eqb ph id e); cbn; [discriminate|auto].
 Qed.
 
-Lemma vlive_validate ops ph id r : validated_live (ops ++ [Validate ph id r]) ph id.
-Proof. exists ops, r, []. split; [reflexivity|]. intros o []. Qed.
-
-Lemma vlive_snoc_inv ops ph id op :
-  validated_live (ops ++ [op]) ph id ->
-  (exists r, op = Validate ph id r) \/ (validated_live ops ph id /\ op <> Expire ph id).
+Lemma find_some_tracked st ph id : tracked st ph id = true -> exists e, find (key_eqb ph id) st = Some e.
 Proof.
-  intros (a & r & b & E & Hb).
-  destruct (rev_case b) as [->|(b' & x & ->)].
-  - left. exists r. change (a ++ [Validate ph id r]) with (a ++ [Validate ph id r]) in E.
-    apply app_inj_tail in E as [_ ->]. reflexivity.
-  - right. rewrite app_comm_cons, app_assoc in E. apply app_inj_tail in E as [-> ->].
-    split.
-    + exists a, r, b'. split; [reflexivity|]. intros o Ho. apply Hb. apply in_or_app. auto.
-    + apply Hb. apply in_or_app. right. left. reflexivity.
+  unfold tracked. induction st as [|e st IH]; cbn; [discriminate|].
+  destruct (key_eqb ph id e); cbn; eauto.
+Qed.
+
+Lemma find_app {A} (f : A -> bool) l1 l2 :
+  find f (l1 ++ l2) = match find f l1 with Some x => Some x | None => find f l2 end.
+Proof. induction l1 as [|x l1 IH]; cbn; auto. destruct (f x); auto. Qed.
+
+(* same key test, the other way round *)
+Lemma key_eqb_swap ph id ph' id' r :
+  key_eqb ph id {| e_ph := ph'; e_id := id'; e_reg := r |} = key_is ph id ph' id'.
+Proof. reflexivity. Qed.
+
+Lemma key_is_sym ph id ph' id' : key_is ph id ph' id' = key_is ph' id' ph id.
+Proof.
+  unfold key_is. rewrite (N.eqb_sym ph' ph). f_equal.
+  destruct (bytes_eqb id' id) eqn:E.
+  - apply bytes_eqb_eq in E. subst. symmetry. apply bytes_eqb_refl.
+  - destruct (bytes_eqb id id') eqn:E'; auto. apply bytes_eqb_eq in E'. subst.
+    rewrite bytes_eqb_refl in E. discriminate.
+Qed.
+
+Lemma key_is_true_eq ph id ph' id' st :
+  key_is ph id ph' id' = true -> find (key_eqb ph' id') st = find (key_eqb ph id) st /\ tracked st ph' id' = tracked st ph id.
+Proof. intros K. apply key_is_spec in K as [-> ->]. auto. Qed.
+
+(* one step of the registry, seen from one key, is one step of that key's automaton *)
+Lemma find_key_track st ph id ph' id' r :
+  find_key (track st ph' id' r) ph id = kstep ph id (find_key st ph id) (Track ph' id' r).
+Proof.
+  unfold track, find_key. cbn [kstep]. destruct (tracked st ph' id') eqn:T.
+  - destruct (key_is ph id ph' id') eqn:K; auto.
+    destruct (key_is_true_eq _ _ _ _ st K) as [E1 E2]. rewrite <- E1.
+    destruct (find_some_tracked _ _ _ T) as (e & ->). reflexivity.
+  - rewrite find_app. cbn [find]. rewrite key_eqb_swap.
+    destruct (key_is ph id ph' id') eqn:K.
+    + destruct (key_is_true_eq _ _ _ _ st K) as [E1 E2]. rewrite <- E1, (find_none_tracked _ _ _ T). reflexivity.
+    + destruct (find (key_eqb ph id) st); reflexivity.
+Qed.
+
+Lemma find_map_mark st ph id ph' id' name :
+  find_key (map (mark_valid ph' id' name) st) ph id =
+  match find_key st ph id with
+  | Some (n, v) => if key_is ph id ph' id' && (n =? name) then Some (n, true) else Some (n, v)
+  | None => None
+  end.
+Proof.
+  unfold find_key. induction st as [|e st IH]; cbn [map find]; auto.
+  assert (Hk : key_eqb ph id (mark_valid ph' id' name e) = key_eqb ph id e).
+  { unfold mark_valid. destruct (key_eqb ph' id' e && (r_name (e_reg e) =? name)); reflexivity. }
+  rewrite Hk. destruct (key_eqb ph id e) eqn:K; [|exact IH].
+  unfold mark_valid. rewrite key_eqb_key_is. rewrite key_eqb_key_is in K.
+  apply key_is_spec in K as [K1 K2]. rewrite K1, K2.
+  rewrite (key_is_sym ph' id' ph id).
+  destruct (key_is ph id ph' id' && (r_name (e_reg e) =? name)); reflexivity.
+Qed.
+
+Lemma find_key_validate st ph id ph' id' r :
+  find_key (validate st ph' id' r) ph id = kstep ph id (find_key st ph id) (Validate ph' id' r).
+Proof.
+  unfold validate. rewrite find_map_mark, find_key_track. cbn [kstep].
+  destruct (key_is ph id ph' id') eqn:K; cbn [andb].
+  - destruct (find_key st ph id) as [[n v]|]; [reflexivity|]. rewrite N.eqb_refl. reflexivity.
+  - destruct (find_key st ph id) as [[n v]|]; reflexivity.
+Qed.
+
+Lemma find_key_expire st ph id ph' id' :
+  find_key (expire st ph' id') ph id = kstep ph id (find_key st ph id) (Expire ph' id').
+Proof.
+  unfold expire, find_key. cbn [kstep]. induction st as [|e st IH]; cbn [filter find].
+  - destruct (key_is ph id ph' id'); reflexivity.
+  - destruct (key_eqb ph' id' e) eqn:K'; cbn [negb].
+    + rewrite IH. destruct (key_eqb ph id e) eqn:K; auto.
+      rewrite key_eqb_key_is in K, K'. apply key_is_spec in K as [K1 K2]. apply key_is_spec in K' as [K1' K2'].
+      replace (key_is ph id ph' id') with true; [reflexivity|].
+      symmetry. apply key_is_spec. split; congruence.
+    + cbn [find]. destruct (key_eqb ph id e) eqn:K; auto.
+      replace (key_is ph id ph' id') with false; [reflexivity|].
+      symmetry. destruct (key_is ph id ph' id') eqn:KK; auto.
+      apply key_is_spec in KK as [-> ->]. congruence.
+Qed.
+
+Lemma find_key_step st op ph id : find_key (step st op) ph id = kstep ph id (find_key st ph id) op.
+Proof.
+  destruct op; cbn [step].
+  - apply find_key_track.
+  - apply find_key_validate.
+  - apply find_key_expire.
+  - reflexivity.
+Qed.
+
+Lemma key_state_snoc ops op ph id : key_state (ops ++ [op]) ph id = kstep ph id (key_state ops ph id) op.
+Proof. unfold key_state. rewrite fold_left_app. reflexivity. Qed.
+
+(* refinement: the registry, looked at through any one key, is that key's automaton *)
+Lemma find_key_run ops ph id : find_key (run ops) ph id = key_state ops ph id.
+Proof.
+  induction ops as [|op ops IH] using rev_ind; [reflexivity|].
+  rewrite run_snoc, key_state_snoc, find_key_step, IH. reflexivity.
 Qed.
 
 (* ------------------------------------------------------------------ the invariant *)
@@ -78,8 +174,7 @@ Definition origin (ops : list rop) (e : entry) : Prop :=
              same_object (e_reg e) r0.
 
 Definition inv (ops : list rop) (st : registry) : Prop :=
-  NoDup (map key st) /\
-  forall e, In e st -> origin ops e /\ (r_valid (e_reg e) = true -> validated_live ops (e_ph e) (e_id e)).
+  NoDup (map key st) /\ forall e, In e st -> origin ops e.
 
 Lemma origin_snoc ops op e : origin ops e -> origin (ops ++ [op]) e.
 Proof.
@@ -97,62 +192,31 @@ Proof.
   apply (proj1 (tracked_false _ _ _) H e He). unfold key in Hk. inversion Hk. auto.
 Qed.
 
-Lemma inv_track ops st ph id r :
-  inv ops st -> inv (ops ++ [Track ph id r]) (track st ph id r).
+Lemma inv_track_gen ops op st ph id r :
+  (op = Track ph id r \/ op = Validate ph id r) ->
+  inv ops st -> inv (ops ++ [op]) (track st ph id r).
 Proof.
-  intros [Hnd Hall]. unfold track. destruct (tracked st ph id) eqn:T.
-  - split; auto. intros e He. destruct (Hall e He) as [Ho Hv]. split.
-    + apply origin_snoc; auto.
-    + intros V. apply vlive_snoc; auto. discriminate.
+  intros Hop [Hnd Hall]. unfold track. destruct (tracked st ph id) eqn:T.
+  - split; auto. intros e He. apply origin_snoc; auto.
   - split.
     + rewrite map_app. cbn. apply NoDup_app_snoc; auto. apply key_not_in; auto.
     + intros e He. apply in_app_or in He as [He|[<-|[]]].
-      * destruct (Hall e He) as [Ho Hv]. split; [apply origin_snoc; auto|].
-        intros V. apply vlive_snoc; auto. discriminate.
-      * split.
-        -- exists r. cbn. split; [left; apply in_or_app; right; left; reflexivity|apply same_object_set_valid].
-        -- cbn. discriminate.
+      * apply origin_snoc; auto.
+      * exists r. cbn. split; [|apply same_object_set_valid].
+        destruct Hop as [->| ->]; [left|right]; apply in_or_app; right; left; reflexivity.
 Qed.
 
-Definition mark_valid ph id (e : entry) : entry :=
-  if key_eqb ph id e
-  then {| e_ph := e_ph e; e_id := e_id e; e_reg := set_valid true (e_reg e) |}
-  else e.
-
-Lemma key_mark_valid ph id e : key (mark_valid ph id e) = key e.
-Proof. unfold mark_valid. destruct (key_eqb ph id e); reflexivity. Qed.
-
-Lemma validate_unfold st ph id r : validate st ph id r = map (mark_valid ph id) (track st ph id r).
-Proof. reflexivity. Qed.
+Lemma key_mark_valid ph id n e : key (mark_valid ph id n e) = key e.
+Proof. unfold mark_valid. destruct (key_eqb ph id e && (r_name (e_reg e) =? n)); reflexivity. Qed.
 
 Lemma inv_validate ops st ph id r :
   inv ops st -> inv (ops ++ [Validate ph id r]) (validate st ph id r).
 Proof.
-  intros [Hnd Hall]. rewrite validate_unfold.
-  (* facts about the tracked list, with the history extended by this Validate *)
-  assert (Ht : NoDup (map key (track st ph id r)) /\
-               forall e, In e (track st ph id r) ->
-                 origin (ops ++ [Validate ph id r]) e /\
-                 (r_valid (e_reg e) = true -> validated_live (ops ++ [Validate ph id r]) (e_ph e) (e_id e))).
-  { unfold track. destruct (tracked st ph id) eqn:T.
-    - split; auto. intros e He. destruct (Hall e He) as [Ho Hv]. split; [apply origin_snoc; auto|].
-      intros V. apply vlive_snoc; auto. discriminate.
-    - split.
-      + rewrite map_app. cbn. apply NoDup_app_snoc; auto. apply key_not_in; auto.
-      + intros e He. apply in_app_or in He as [He|[<-|[]]].
-        * destruct (Hall e He) as [Ho Hv]. split; [apply origin_snoc; auto|].
-          intros V. apply vlive_snoc; auto. discriminate.
-        * split; [|cbn; discriminate].
-          exists r. cbn. split; [right; apply in_or_app; right; left; reflexivity|apply same_object_set_valid]. }
-  destruct Ht as [Hnd' Hall']. split.
-  - rewrite map_map. erewrite map_ext; [exact Hnd'|]. intros e. apply key_mark_valid.
-  - intros e He. apply in_map_iff in He as (e0 & <- & He0).
-    destruct (Hall' e0 He0) as [Ho Hv]. unfold mark_valid. destruct (key_eqb ph id e0) eqn:K.
-    + apply key_eqb_true in K as [K1 K2]. cbn. split.
-      * destruct Ho as (r0 & H & S). exists r0. cbn. split; [auto|].
-        destruct S as (S1 & S2 & S3). unfold same_object, set_valid. cbn. auto.
-      * intros _. rewrite K1, K2. apply vlive_validate.
-    + split; auto.
+  intros H. destruct (inv_track_gen ops (Validate ph id r) st ph id r (or_intror eq_refl) H) as [Hnd Hall].
+  unfold validate. split.
+  - rewrite map_map. erewrite map_ext; [exact Hnd|]. intros e. apply key_mark_valid.
+  - intros e He. apply in_map_iff in He as (e0 & <- & He0). specialize (Hall e0 He0).
+    unfold mark_valid. destruct (key_eqb ph id e0 && (r_name (e_reg e0) =? r_name r)); auto.
 Qed.
 
 Lemma inv_expire ops st ph id :
@@ -163,15 +227,7 @@ Proof.
     inversion Hnd as [|? ? Hn Hnd']; subst. destruct (negb (key_eqb ph id e)); cbn; auto.
     constructor; auto. intros Hin. apply Hn. apply in_map_iff in Hin as (e' & Hk & He').
     apply filter_In in He' as [He' _]. apply in_map_iff. eauto.
-  - intros e He. apply filter_In in He as [He K]. apply negb_true_iff, key_eqb_false in K.
-    destruct (Hall e He) as [Ho Hv]. split; [apply origin_snoc; auto|].
-    intros V. apply vlive_snoc; auto. intros E. inversion E. subst. apply K. auto.
-Qed.
-
-Lemma inv_sweep ops st : inv ops st -> inv (ops ++ [Sweep]) st.
-Proof.
-  intros [Hnd Hall]. split; auto. intros e He. destruct (Hall e He) as [Ho Hv].
-  split; [apply origin_snoc; auto|]. intros V. apply vlive_snoc; auto. discriminate.
+  - intros e He. apply filter_In in He as [He _]. apply origin_snoc; auto.
 Qed.
 
 Lemma inv_run ops : inv ops (run ops).
@@ -179,10 +235,10 @@ Proof.
   induction ops as [|op ops IH] using rev_ind.
   - split; [constructor|intros e []].
   - rewrite run_snoc. destruct op; cbn [step].
-    + apply inv_track; auto.
+    + apply inv_track_gen; auto.
     + apply inv_validate; auto.
     + apply inv_expire; auto.
-    + apply inv_sweep; auto.
+    + destruct IH as [Hnd Hall]. split; auto. intros e He. apply origin_snoc; auto.
 Qed.
 
 (* ------------------------------------------------------------------ the view *)
@@ -196,11 +252,38 @@ Proof.
     rewrite N.eqb_refl, V. reflexivity.
 Qed.
 
+Lemma find_nodup st e : NoDup (map key st) -> In e st -> find (key_eqb (e_ph e) (e_id e)) st = Some e.
+Proof.
+  induction st as [|x st IH]; cbn; [tauto|]. intros Hnd [->|Hin].
+  - replace (key_eqb (e_ph e) (e_id e) e) with true; [reflexivity|]. symmetry. apply key_eqb_true. auto.
+  - inversion Hnd as [|? ? Hn Hnd']; subst. destruct (key_eqb (e_ph e) (e_id e) x) eqn:K; auto.
+    exfalso. apply Hn. apply key_eqb_true in K as [K1 K2]. apply in_map_iff. exists e. split; auto.
+    unfold key. congruence.
+Qed.
+
+Lemma find_In {A} (f : A -> bool) l x : find f l = Some x -> In x l /\ f x = true.
+Proof.
+  induction l as [|y l IH]; cbn; [discriminate|]. destruct (f y) eqn:E.
+  - intros [= ->]. auto.
+  - intros H. destruct (IH H). auto.
+Qed.
+
 Lemma view_sound ops ph id r :
   In (id, r) (get_regs (run ops) ph) -> registered ops ph id r.
 Proof.
-  intros H. apply in_get_regs in H as [He V]. destruct (inv_run ops) as [_ Hall].
-  destruct (Hall _ He) as [Ho Hv]. cbn in *. unfold registered. auto.
+  intros H. apply in_get_regs in H as [He V]. destruct (inv_run ops) as [Hnd Hall].
+  unfold registered. split; auto. split.
+  - rewrite <- find_key_run. unfold find_key. unfold has_entry in He.
+    pose proof (find_nodup _ _ Hnd He) as F. cbn [e_ph e_id] in F. rewrite F. cbn. rewrite V. reflexivity.
+  - exact (Hall _ He).
+Qed.
+
+Lemma view_complete ops ph id n :
+  key_state ops ph id = Some (n, true) -> exists r, In (id, r) (get_regs (run ops) ph) /\ r_name r = n.
+Proof.
+  rewrite <- find_key_run. unfold find_key. destruct (find (key_eqb ph id) (run ops)) as [e|] eqn:F; [|discriminate].
+  intros [= <- V]. apply find_In in F as [Hin K]. apply key_eqb_true in K as [K1 K2].
+  exists (e_reg e). split; auto. apply in_get_regs. split; auto. unfold has_entry. destruct e; cbn in *. subst. auto.
 Qed.
 
 Lemma NoDup_map_filter {A B} (f : A -> B) (p : A -> bool) l :
@@ -239,78 +322,52 @@ Proof.
   - auto.
 Qed.
 
-(* the history-level spec is exact: whatever is validated and unexpired is visible *)
-Lemma step_keeps_valid st op ph id :
-  (exists r, has_entry st ph id r /\ r_valid r = true) -> op <> Expire ph id ->
-  exists r, has_entry (step st op) ph id r /\ r_valid r = true.
+(* ------------------------------------------------------------------ the ghost in words *)
+Lemma vsince_snoc ops ph id op :
+  validated_since ops ph id -> op <> Expire ph id -> validated_since (ops ++ [op]) ph id.
 Proof.
-  intros (r & He & V) Hop. unfold has_entry in *. destruct op as [ph' id' r'|ph' id' r'|ph' id'|]; cbn [step].
-  - exists r. split; auto. unfold track. destruct (tracked st ph' id'); auto. apply in_or_app; auto.
-  - rewrite validate_unfold.
-    assert (Ht : In {| e_ph := ph; e_id := id; e_reg := r |} (track st ph' id' r')).
-    { unfold track. destruct (tracked st ph' id'); auto. apply in_or_app; auto. }
-    destruct (key_eqb ph' id' {| e_ph := ph; e_id := id; e_reg := r |}) eqn:K.
-    + exists (set_valid true r). split; [|reflexivity].
-      apply in_map_iff. eexists. split; [|exact Ht]. unfold mark_valid. rewrite K. reflexivity.
-    + exists r. split; auto. apply in_map_iff. eexists. split; [|exact Ht]. unfold mark_valid. rewrite K. reflexivity.
-  - exists r. split; auto. unfold expire. apply filter_In. split; auto.
-    apply negb_true_iff, key_eqb_false. cbn. intros [-> ->]. apply Hop. reflexivity.
-  - eauto.
+  intros (a & r & b & -> & Hb) Hop. exists a, r, (b ++ [op]). split.
+  - rewrite <- app_assoc. reflexivity.
+  - intros o Ho. apply in_app_or in Ho as [Ho|[<-|[]]]; auto.
 Qed.
 
-Lemma validate_makes_valid st ph id r :
-  exists r', has_entry (validate st ph id r) ph id r' /\ r_valid r' = true.
+Lemma kstep_valid_cases ph id s op n :
+  kstep ph id s op = Some (n, true) ->
+  (exists r, op = Validate ph id r) \/ (s = Some (n, true) /\ op <> Expire ph id).
 Proof.
-  rewrite validate_unfold. unfold has_entry.
-  assert (Ht : exists r0, In {| e_ph := ph; e_id := id; e_reg := r0 |} (track st ph id r)).
-  { unfold track. destruct (tracked st ph id) eqn:T.
-    - apply tracked_true in T as (e & He & <- & <-). exists (e_reg e). destruct e; auto.
-    - eexists. apply in_or_app. right. left. reflexivity. }
-  destruct Ht as (r0 & Ht). exists (set_valid true r0). split; [|reflexivity].
-  apply in_map_iff. eexists. split; [|exact Ht]. unfold mark_valid.
-  replace (key_eqb ph id {| e_ph := ph; e_id := id; e_reg := r0 |}) with true; [reflexivity|].
-  symmetry. apply key_eqb_true. auto.
+  destruct op as [ph' id' r|ph' id' r|ph' id'|]; cbn [kstep].
+  - destruct (key_is ph id ph' id') eqn:K.
+    + destruct s as [[m v]|]; [|discriminate]. intros [= -> ->]. right. split; auto. discriminate.
+    + intros ->. right. split; auto. discriminate.
+  - destruct (key_is ph id ph' id') eqn:K.
+    + apply key_is_spec in K as [-> ->]. intros _. left. eauto.
+    + intros ->. right. split; auto. discriminate.
+  - destruct (key_is ph id ph' id') eqn:K; [discriminate|]. intros ->. right. split; auto.
+    intros E. inversion E; subst. unfold key_is in K. rewrite N.eqb_refl, bytes_eqb_refl in K. discriminate.
+  - intros ->. right. split; auto. discriminate.
 Qed.
 
-Lemma view_complete ops ph id :
-  validated_live ops ph id -> exists r, In (id, r) (get_regs (run ops) ph).
+Lemma live_needs_validate ops ph id : validated_live ops ph id -> validated_since ops ph id.
 Proof.
-  intros H. cut (exists r, has_entry (run ops) ph id r /\ r_valid r = true).
-  { intros (r & He & V). exists r. apply in_get_regs. auto. }
-  induction ops as [|op ops IH] using rev_ind.
-  - destruct H as (a & r & b & E & _). destruct a; discriminate.
-  - rewrite run_snoc. apply vlive_snoc_inv in H as [(r & ->)|[H Hop]].
-    + cbn [step]. apply validate_makes_valid.
-    + apply step_keeps_valid; auto.
+  intros (n & H). revert n H. induction ops as [|op ops IH] using rev_ind; intros n H; [discriminate|].
+  rewrite key_state_snoc in H. apply kstep_valid_cases in H as [(r & ->)|[H Hop]].
+  - exists ops, r, []. split; [reflexivity|]. intros o [].
+  - apply vsince_snoc; eauto.
 Qed.
 
-(* ------------------------------------------------------------------ validated_live is decidable *)
-Lemma pair_eqb ph id ph' id' : (ph' =? ph) && bytes_eqb id' id = true <-> ph' = ph /\ id' = id.
-Proof. rewrite andb_true_iff, N.eqb_eq, bytes_eqb_eq. tauto. Qed.
-
-Lemma vlive_b_spec ops ph id : validated_live ops ph id <-> vlive_b ops ph id = true.
+Lemma expire_kills ops ph id : key_state (ops ++ [Expire ph id]) ph id = None.
 Proof.
-  unfold vlive_b. induction ops as [|op ops IH] using rev_ind.
-  - cbn. split; [|discriminate]. intros (a & r & b & E & _). destruct a; discriminate.
-  - rewrite fold_left_app. cbn [fold_left]. set (acc := fold_left (vstep ph id) ops false) in *.
-    destruct op as [ph' id' r'|ph' id' r'|ph' id'|]; cbn [vstep].
-    + rewrite <- IH. split.
-      * intros H. apply vlive_snoc_inv in H as [(r & E)|[H _]]; [discriminate|auto].
-      * intros H. apply vlive_snoc; auto. discriminate.
-    + destruct ((ph' =? ph) && bytes_eqb id' id) eqn:K.
-      * apply pair_eqb in K as [-> ->]. split; auto. intros _. apply vlive_validate.
-      * rewrite <- IH. split.
-        -- intros H. apply vlive_snoc_inv in H as [(r & E)|[H _]]; auto.
-           inversion E; subst. rewrite N.eqb_refl, bytes_eqb_refl in K. discriminate.
-        -- intros H. apply vlive_snoc; auto. discriminate.
-    + destruct ((ph' =? ph) && bytes_eqb id' id) eqn:K.
-      * apply pair_eqb in K as [-> ->]. split; [|discriminate].
-        intros H. apply vlive_snoc_inv in H as [(r & E)|[_ H]]; [discriminate|]. exfalso. apply H. reflexivity.
-      * rewrite <- IH. split.
-        -- intros H. apply vlive_snoc_inv in H as [(r & E)|[H _]]; [discriminate|auto].
-        -- intros H. apply vlive_snoc; auto. intros E. inversion E; subst.
-           rewrite N.eqb_refl, bytes_eqb_refl in K. discriminate.
-    + rewrite <- IH. split.
-      * intros H. apply vlive_snoc_inv in H as [(r & E)|[H _]]; [discriminate|auto].
-      * intros H. apply vlive_snoc; auto. discriminate.
+  rewrite key_state_snoc. cbn. unfold key_is. rewrite N.eqb_refl, bytes_eqb_refl. reflexivity.
+Qed.
+
+Lemma other_phantom_irrelevant ops ph id op :
+  (forall r, op <> Track ph id r) -> (forall r, op <> Validate ph id r) -> op <> Expire ph id ->
+  key_state (ops ++ [op]) ph id = key_state ops ph id.
+Proof.
+  intros H1 H2 H3. rewrite key_state_snoc.
+  destruct op as [ph' id' r|ph' id' r|ph' id'|]; cbn [kstep]; auto;
+    destruct (key_is ph id ph' id') eqn:K; auto; apply key_is_spec in K as [-> ->]; exfalso.
+  - eapply H1; reflexivity.
+  - eapply H2; reflexivity.
+  - apply H3; reflexivity.
 Qed.
